@@ -12,6 +12,23 @@ NOTE_COMMON = ('Trusted base: CPython, Hypothesis 6.168 as case generator, the h
 
 # id -> (design section, technique, level text, level note)
 CLAIMS = {
+    'C03': ('3/C03', 'state-aware generation of slot operations + list-operation sweep; token-window oracle (identity/order/text of everything outside the affected child and its adjacent separators)',
+            'Exploration: after every generated add/remove/replace of a child the tokens outside the owning model, every sibling and every surviving token are compared by '
+            'identity, order and text; disappeared/appeared tokens must lie in the child or its adjacent separator run. Right level: separator/pivot errors are local and '
+            'deterministic per (class, field, operation shape), which the schema-driven generator and the sweep enumerate.',
+            NOTE_COMMON),
+    'C04': ('3/C04', 'generated programs of read-only and comment-attribution calls (whitelisted callables); visible-token identity/text and printed-text invariance oracle after every call',
+            'Exploration: every public attribute of every model, every wrapper protocol, comparison, hashing, repr, deepcopy, printing and every claim/unclaim/auto-claim call '
+            'are exercised on comment-dense ledgers in both attribution modes. Right level: the property is an invariance under a finite API surface that can be covered completely per document.',
+            NOTE_COMMON),
+    'C11': ('3/C11', 'generated (document, sub-model, edit program on copy, edit program on original) tuples + all-sub-model sweep; equality, text, token-disjointness, invariants and two-sided snapshot-independence oracles',
+            'Exploration: deep copies of models at every depth (incl. after placeholder-moving claim programs) are compared with the original, checked as complete trees, and both '
+            'sides are edited while the other side\'s full snapshot must stay unchanged. Right level: sharing bugs show on the first edit that touches the shared part.',
+            NOTE_COMMON),
+    'C20': ('3/C20', 'generated model pairs (parse twice, deep copy, single schema-driven perturbation, ownership moves, same-text tokens of different classes, cross-type pairs); metamorphic equal/unequal oracle with symmetry and hash consistency',
+            'Exploration: equality is evaluated in both directions on pairs whose expected verdict is known by construction. Right level: the relation is decided per pair; '
+            'coverage of every field of every class comes from the schema-driven perturbation generator.',
+            NOTE_COMMON + ' indent_by is never varied.'),
     'C02': ('3/C02', 'Hypothesis-generated token assignment programs over whole-store token selection; splice oracle computed from the pre-state token texts',
             'Exploration: value / raw_text / indent assignments to any token (trivia and zero-width marks included) of generated ledgers; identity, order and text of every '
             'other token, the printed file and every enclosing model are compared with the single-span splice. Right level: a pure per-token relation, cheap to sample densely.',
